@@ -17,6 +17,8 @@ import (
 	"github.com/containerd/nri/pkg/adaptation"
 	"github.com/containerd/nri/pkg/api"
 	"github.com/containerd/nri/pkg/stub"
+	"google.golang.org/grpc/codes"
+	"google.golang.org/grpc/status"
 
 	"verif/harness/internal/coqfmt"
 	"verif/harness/internal/hx"
@@ -42,7 +44,10 @@ type updCase struct {
 	Started   bool        `json:"started"`
 	Updates   []updItem   `json:"updates"`
 	CbFailed  []updItem   `json:"cb_failed"`
-	CbErr     string      `json:"cb_err,omitempty"`
+	CbErr     string      `json:"cb_err,omitempty"`  // what must be contained in the error the plugin gets ("code = X desc = msg" for a status error)
+	CbCode    string      `json:"cb_code,omitempty"` // the call-back fails with status.Error(code, CbMsg); "" = a plain error
+	CbMsg     string      `json:"cb_msg,omitempty"`
+	RetCode   string      `json:"ret_code,omitempty"`
 	Seen      [][]updItem `json:"seen"`
 	RetFailed []updItem   `json:"ret_failed"`
 	RetErr    string      `json:"ret_err,omitempty"`
@@ -115,6 +120,34 @@ func sameItems(a, b []updItem) bool {
 	return true
 }
 
+// the status codes a runtime's update call-back may fail with (besides plain errors)
+var cbCodes = map[string]codes.Code{"NotFound": codes.NotFound, "Unavailable": codes.Unavailable, "Aborted": codes.Aborted,
+	"ResourceExhausted": codes.ResourceExhausted, "DeadlineExceeded": codes.DeadlineExceeded, "Canceled": codes.Canceled, "Internal": codes.Internal}
+var cbCodeNames = []string{"NotFound", "Unavailable", "Aborted", "ResourceExhausted", "DeadlineExceeded", "Canceled", "Internal"}
+
+// setVerdict makes the call-back of u fail: kind "" = errors.New(msg), otherwise status.Error(kind, msg).
+func setVerdict(u *updCase, kind, msg string) {
+	if kind == "" {
+		u.CbErr = msg
+		return
+	}
+	u.CbCode, u.CbMsg, u.CbErr = kind, msg, "code = "+kind+" desc = "+msg
+}
+
+func cbError(u *updCase) error {
+	if u.CbCode != "" {
+		return status.Error(cbCodes[u.CbCode], u.CbMsg)
+	}
+	return errors.New(u.CbErr)
+}
+
+func noteRet(u *updCase, err error) {
+	if err != nil {
+		u.RetErr = err.Error()
+		u.RetCode = status.Code(err).String()
+	}
+}
+
 func updOracle(u *updCase) string {
 	if !u.Started {
 		switch {
@@ -134,6 +167,9 @@ func updOracle(u *updCase) string {
 	if u.CbErr != "" {
 		if !strings.Contains(u.RetErr, u.CbErr) {
 			return fmt.Sprintf("call-back failed with %q, the plugin got error %q", u.CbErr, u.RetErr)
+		}
+		if u.CbCode != "" && u.RetCode != u.CbCode {
+			return fmt.Sprintf("call-back failed with status code %s, the plugin got code %s", u.CbCode, u.RetCode)
 		}
 		return ""
 	}
@@ -159,7 +195,7 @@ func driveUpdates(c *hx.Ctx) error {
 	sh := c.NewShard("updates", imports, "upd_case", "corr_update", "holds_update", 500)
 	ss := c.NewShard("schedules", imports, "sched_case", "corr_sched", "holds_sched", 50)
 	r := c.Rand("updates")
-	c.Stats.Rule = "updates: per round a fresh Adaptation with 2-6 real stubs, each issuing update lists of 1-5 entries from its own goroutine while three goroutines fire random runtime requests (handlers take 150 us, the call-back 100 us); the call-back answers per script: nothing, a failed sub-list, or an error (with or without a list); every call is one case (content, once, result); the merged begin/end marks of all call-backs and handlers are the schedule cases; un-started stubs: UpdateContainers must return ErrNoService at once; slow: with a plugin request time-out of 400 ms, a call-back that takes 1.2 s, updates of other plugins queued behind it, and updates queued behind a runtime request that holds the adaptation lock for 600 ms — the plugin must get exactly the call-back's failed list or error."
+	c.Stats.Rule = "updates: per round a fresh Adaptation with 2-6 real stubs, each issuing update lists of 1-5 entries from its own goroutine while three goroutines fire random runtime requests (handlers take 150 us, the call-back 100 us); the call-back answers per script: nothing, a failed sub-list, or an error (with or without a list); every call is one case (content, once, result); the merged begin/end marks of all call-backs and handlers are the schedule cases; un-started stubs: UpdateContainers must return ErrNoService at once; failing call-backs return plain errors or status errors (NotFound, Unavailable, Aborted, ResourceExhausted, DeadlineExceeded, Canceled, Internal): seen once, same code and message back; a plugin is stopped while its update is inside a 700 ms call-back, then another plugin's update and a request are issued: they must wait for that call-back; slow: with a plugin request time-out of 400 ms, a call-back that takes 1.2 s, updates of other plugins queued behind it, and updates queued behind a runtime request that holds the adaptation lock for 600 ms — the plugin must get exactly the call-back's failed list or error."
 	caseNo := 0
 
 	// --- committed boundary cases, one call at a time on an otherwise idle Adaptation
@@ -203,7 +239,7 @@ func driveUpdates(c *hx.Ctx) error {
 					defer mu.Unlock()
 					u.Seen = append(u.Seen, toItems(us))
 					if u.CbErr != "" {
-						return fromItems(u.CbFailed), errors.New(u.CbErr)
+						return fromItems(u.CbFailed), cbError(u)
 					}
 					return fromItems(u.CbFailed), nil
 				})
@@ -214,9 +250,7 @@ func driveUpdates(c *hx.Ctx) error {
 					failed, uerr := p.st.UpdateContainers(fromItems(u.Updates))
 					mu.Lock()
 					u.RetFailed = toItems(failed)
-					if uerr != nil {
-						u.RetErr = uerr.Error()
-					}
+					noteRet(u, uerr)
 					mu.Unlock()
 				}()
 				if !groupWithin(&cw, wedgeWait) {
@@ -263,9 +297,7 @@ func driveUpdates(c *hx.Ctx) error {
 				failed, uerr := p.st.UpdateContainers(fromItems(u.Updates))
 				mu.Lock()
 				u.RetFailed = toItems(failed)
-				if uerr != nil {
-					u.RetErr = uerr.Error()
-				}
+				noteRet(u, uerr)
 				mu.Unlock()
 			}
 			started := make(chan error, 1)
@@ -348,7 +380,7 @@ func driveUpdates(c *hx.Ctx) error {
 				defer mu.Unlock()
 				u.Seen = append(u.Seen, items)
 				if u.CbErr != "" {
-					return fromItems(u.CbFailed), errors.New(u.CbErr)
+					return fromItems(u.CbFailed), cbError(u)
 				}
 				return fromItems(u.CbFailed), nil
 			})
@@ -360,7 +392,7 @@ func driveUpdates(c *hx.Ctx) error {
 				}
 				u.CbFailed = append(u.CbFailed, u.Updates[rs.Intn(len(u.Updates))])
 				if withErr {
-					u.CbErr = fmt.Sprintf("cb-fail-%d", caseNo)
+					setVerdict(u, []string{"", "Unavailable", "Aborted", "NotFound"}[rs.Intn(4)], fmt.Sprintf("cb-fail-%d", caseNo))
 				}
 				mu.Lock()
 				byID[u.Updates[0].ID] = u
@@ -378,9 +410,7 @@ func driveUpdates(c *hx.Ctx) error {
 					mu.Lock()
 					u.Micros = time.Since(t0).Microseconds()
 					u.RetFailed = toItems(failed)
-					if uerr != nil {
-						u.RetErr = uerr.Error()
-					}
+					noteRet(u, uerr)
 					mu.Unlock()
 				}()
 			}
@@ -442,6 +472,159 @@ func driveUpdates(c *hx.Ctx) error {
 		adaptation.SetPluginRequestTimeout(10 * time.Second)
 	}
 
+	// --- a plugin that goes away while its update is inside a slow call-back: the call-back keeps running
+	// under the adaptation lock; another plugin's update and a runtime request issued meanwhile must wait for it
+	for sc := 0; sc < c.Pick(2, 8); sc++ {
+		e, err := newEnv(c.Out)
+		if err != nil {
+			return err
+		}
+		a := newPlug(e, "71", "GA", 0)
+		bb := newPlug(e, "72", "GB", 0)
+		sl := newPlug(e, "20", "GS", api.ValidEvents)
+		var cbActive atomic.Int32
+		var mmu sync.Mutex
+		var marks []schedMark
+		overlaps := 0
+		sl.setDecide(func(request) action {
+			return action{Sleep: 60 * time.Millisecond, Before: func() {
+				if cbActive.Load() > 0 {
+					mmu.Lock()
+					overlaps++
+					mmu.Unlock()
+				}
+			}}
+		})
+		a.mask, bb.mask = api.EventMask(1)<<(uint(api.Event_REMOVE_POD_SANDBOX)-1), api.EventMask(1)<<(uint(api.Event_REMOVE_POD_SANDBOX)-1)
+		for _, p := range []*plug{a, bb, sl} {
+			if err := p.startStub(e.sock); err != nil {
+				e.closeWithin(5 * time.Second)
+				return err
+			}
+		}
+		if err := e.waitSynced(10*time.Second, a, bb, sl); err != nil {
+			e.closeWithin(5 * time.Second)
+			return err
+		}
+		caseNo++
+		ub := &updCase{Stream: "updates", N: 4000000 + caseNo, Plugin: bb.name + " behind the slow call-back of a plugin that went away", Started: true,
+			Updates: []updItem{{ID: fmt.Sprintf("b%06d.0", caseNo), Shares: int64(100 + sc)}}, CbFailed: []updItem{}, Seen: [][]updItem{}, RetFailed: []updItem{}}
+		if sc%2 == 1 {
+			ub.CbFailed = append(ub.CbFailed, ub.Updates[0])
+		}
+		inSlow := make(chan struct{})
+		var once sync.Once
+		e.setUpdateFn(func(_ context.Context, us []*adaptation.ContainerUpdate) ([]*adaptation.ContainerUpdate, error) {
+			items := toItems(us)
+			b0 := e.next()
+			if cbActive.Add(1) > 1 || e.handlersActive.Load() > 0 {
+				mmu.Lock()
+				overlaps++
+				mmu.Unlock()
+			}
+			var failed []*adaptation.ContainerUpdate
+			if len(items) > 0 && strings.HasPrefix(items[0].ID, "a") {
+				once.Do(func() { close(inSlow) })
+				time.Sleep(700 * time.Millisecond)
+			} else {
+				time.Sleep(30 * time.Millisecond)
+				mmu.Lock()
+				ub.Seen = append(ub.Seen, items)
+				failed = fromItems(ub.CbFailed)
+				mmu.Unlock()
+			}
+			if e.handlersActive.Load() > 0 {
+				mmu.Lock()
+				overlaps++
+				mmu.Unlock()
+			}
+			cbActive.Add(-1)
+			en := e.next()
+			mmu.Lock()
+			marks = append(marks, schedMark{b0, true, true}, schedMark{en, false, true})
+			mmu.Unlock()
+			return failed, nil
+		})
+		var wg sync.WaitGroup
+		wg.Add(1)
+		go func() { // the update of the plugin that will go away; its own result is lost with its connection
+			defer wg.Done()
+			a.st.UpdateContainers(fromItems([]updItem{{ID: fmt.Sprintf("a%06d.0", caseNo), Shares: 7}}))
+		}()
+		select {
+		case <-inSlow:
+		case <-time.After(wedgeWait):
+			c.ImplFail("updates", "an unsolicited update did not reach the call-back within 20 s", map[string]interface{}{"stream": "updates", "scenario": sc})
+			return nil
+		}
+		a.stop()
+		select {
+		case <-a.closed:
+		case <-time.After(5 * time.Second):
+		}
+		time.Sleep(20 * time.Millisecond)
+		wg.Add(2)
+		go func() {
+			defer wg.Done()
+			failed, uerr := bb.st.UpdateContainers(fromItems(ub.Updates))
+			mmu.Lock()
+			ub.RetFailed = toItems(failed)
+			noteRet(ub, uerr)
+			mmu.Unlock()
+		}()
+		var rres reqResult
+		go func() {
+			defer wg.Done()
+			rres = e.fire(mkRequest(950000+sc, api.Event_RUN_POD_SANDBOX))
+		}()
+		if !groupWithin(&wg, wedgeWait) {
+			c.ImplFail("updates", fmt.Sprintf("after a plugin went away during its update's call-back, another update and a request had not returned after %v: the runtime is deadlocked", wedgeWait), map[string]interface{}{"stream": "updates", "scenario": sc})
+			return nil
+		}
+		// give the slow call-back time to finish, then judge the schedule
+		for i := 0; i < 200 && cbActive.Load() > 0; i++ {
+			time.Sleep(10 * time.Millisecond)
+		}
+		mmu.Lock()
+		for _, inv := range sl.invocations() {
+			marks = append(marks, schedMark{inv.Seq, true, false}, schedMark{inv.End, false, false})
+		}
+		sort.Slice(marks, func(i, j int) bool { return marks[i].seq < marks[j].seq })
+		open, bad := 0, overlaps
+		for _, m := range marks {
+			if m.begin {
+				if open > 0 {
+					bad++
+				}
+				open++
+			} else {
+				open--
+			}
+		}
+		ms := append([]schedMark(nil), marks...)
+		sh.Add(updCaseTerm(ub), ub)
+		why := updOracle(ub)
+		mmu.Unlock()
+		emitSchedule(c, ss, 1000+sc, ms)
+		if why != "" {
+			c.ImplFail("updates", why+" ("+ub.Plugin+")", ub)
+		}
+		if rres.Err != "" {
+			c.ImplFail("updates", "a request issued while a departed plugin's call-back was running failed: "+rres.Err, map[string]interface{}{"stream": "updates", "scenario": sc})
+		}
+		if bad > 0 {
+			c.ImplFail("schedules", fmt.Sprintf("a plugin went away while its update was inside the runtime's call-back: the call-back then ran together with another call-back or a request's handler (%d overlaps): the adaptation lock was released before the call-back returned", bad),
+				map[string]interface{}{"stream": "schedules", "scenario": sc, "marks": len(ms)})
+		}
+		c.Eval(fmt.Sprintf("abandoned/%d", sc), true)
+		c.Count("updates.plugin_gone_during_callback", 1)
+		e.setUpdateFn(nil)
+		for _, p := range []*plug{bb, sl} {
+			go p.stop()
+		}
+		e.closeWithin(5 * time.Second)
+	}
+
 	rounds := c.Pick(10, 24)
 	perPlugin := c.Pick(40, 100)
 	totalUpd, totalOverlapCB, totalOverlapH, withErr, withFailed, emptyList := 0, 0, 0, 0, 0, 0
@@ -482,7 +665,11 @@ func driveUpdates(c *hx.Ctx) error {
 				}
 				switch r.Intn(4) {
 				case 0:
-					u.CbErr = fmt.Sprintf("cb-fail-%d", caseNo)
+					kind := ""
+					if r.Intn(3) > 0 {
+						kind = cbCodeNames[r.Intn(len(cbCodeNames))]
+					}
+					setVerdict(u, kind, fmt.Sprintf("cb-fail-%d", caseNo))
 					// a failing call-back may still return a list; it must not reach the plugin as a success
 					if r.Intn(2) == 0 {
 						u.CbFailed = append(u.CbFailed, u.Updates[0])
@@ -543,7 +730,7 @@ func driveUpdates(c *hx.Ctx) error {
 				u.Seen = append(u.Seen, items)
 				failed = fromItems(u.CbFailed)
 				if u.CbErr != "" {
-					rerr = errors.New(u.CbErr)
+					rerr = cbError(u)
 				}
 			}
 			mmu.Unlock()
@@ -595,9 +782,7 @@ func driveUpdates(c *hx.Ctx) error {
 					u.Micros = time.Since(t0).Microseconds()
 					mmu.Lock()
 					u.RetFailed = toItems(failed)
-					if err != nil {
-						u.RetErr = err.Error()
-					}
+					noteRet(u, err)
 					mmu.Unlock()
 					returned.Add(1)
 					progress.Add(1)
